@@ -278,6 +278,20 @@ class Sim:
     def op_create(self, op):
         self.create(op["name"], op["cls"], op["attrs"], op.get("src"))
 
+    def op_refused_create(self, op):
+        """Construct, in the live world, an object whose construction the library refuses while recomputing (a service
+        that does not fit on its server).  The refusal is swallowed: the monitors then judge the live model, which must
+        be what it was.  If the construction is accepted the object is mirrored like any creation."""
+        try:
+            self.create(op["name"], op["cls"], op["attrs"], op.get("src"))
+        except OpSkipped:
+            raise
+        except ValueError as e:
+            env.IDS.pending_name = None
+            self.refused_creates = getattr(self, "refused_creates", 0) + 1
+            self.last_refusal = f"{type(e).__name__}: {str(e)[:120]}"
+            return "refused"
+
     def op_compound(self, op):
         """Several ops with no oracle in between (creation + linking, removal + deletion)."""
         for sub in op["steps"]:
